@@ -103,7 +103,8 @@ Section Bridge.
   Proof.
     unfold gen_are_columns_nested, bf_any, frame_applymap, are_columns_nested.
     cbn [fst snd]. do 2 f_equal. apply map_ext. intro row. apply map_ext. intro c.
-    cbv beta. rewrite ?orb_false_r. apply bridge_cell_is_series_or_array.
+    (* whichever way the type test is spelt (tuple, constant, chain of isinstance) *)
+    destruct c; reflexivity.
   Qed.
 
   Lemma bridge_is_nested_dataframe (f : frame V) :
